@@ -119,6 +119,12 @@ var Shapes = []*Shape{
 	{"marked", "WithStack(Mark(Wrap(New), io.EOF)): a layer that stores a ready-made identity mark", func() error {
 		return errors.WithStack(errors.Mark(errors.Wrap(errors.New("inner"), "ctx"), io.EOF))
 	}},
+	{"badutf8", "HopU(WithSafeDetails(WithTelemetry(ut.UnwrapW(GoNew), k\\xff), fmt \\xff)): safe strings that are not valid UTF-8, local and in opaque layers", func() error {
+		var e error = &ut.UnwrapW{Msg: "foreign \xff", Cause: goerrors.New("std")}
+		e = errors.WithTelemetry(e, "key\xff", "key.ok")
+		e = errors.WithSafeDetails(e, "d\xfe %s", errors.Safe("v\xff"))
+		return errors.WithTelemetry(hop(e), "outer\xff")
+	}},
 	{"gleaf", "Wrap(&driver.GLeaf[string]): a user-defined generic leaf type", func() error {
 		return errors.Wrap(&GLeaf[string]{Msg: "generic"}, "ctx")
 	}},
